@@ -10,6 +10,7 @@ import (
 	sse "github.com/tmaxmax/go-sse"
 
 	"verif/ev"
+	"verif/sq/ref"
 	"verif/sq/sqrun"
 )
 
@@ -75,6 +76,25 @@ func checkRoundTrip(k *collector, spec MsgSpec) {
 	}
 	if back.ID != m.ID || back.Type != m.Type || back.Retry.Milliseconds() != wantMs || back.String() != s {
 		k.fail("C15: text round trip changes the message", fmt.Sprintf("%+v encodes to %q; after UnmarshalText: ID %q/%v type %q/%v retry %v, re-encoded %q", spec, s, back.ID.String(), back.ID.IsSet(), back.Type.String(), back.Type.IsSet(), back.Retry, back.String()), spec)
+		return
+	}
+	// Re-encoding equal bytes proves nothing if the bytes themselves merged or split lines: the text must carry
+	// exactly the appended data and comment lines (counted by an independent line splitter and the reference).
+	comments := 0
+	for _, l := range Lines(s) {
+		if strings.HasPrefix(l, ":") {
+			comments++
+		}
+	}
+	dl := spec.dataLines()
+	got := ref.Interpret(s, ref.Mode{Strict: true})
+	switch {
+	case comments != len(spec.commentLines()):
+		k.fail("C15: the text form does not carry the appended comment lines", fmt.Sprintf("%+v encodes to %q: %d comment lines, %d were appended", spec, s, comments, len(spec.commentLines())), spec)
+	case len(dl) > 0 && (len(got.Events) != 1 || got.Events[0].Data != strings.Join(dl, "\n")):
+		k.fail("C15: the text form does not carry the appended data lines", fmt.Sprintf("%+v encodes to %q, which reads as %+v; appended data lines %q", spec, s, got.Events, dl), spec)
+	case len(dl) == 0 && len(got.Events) != 0:
+		k.fail("C15: the text form carries data that was not appended", fmt.Sprintf("%+v encodes to %q, which reads as %+v", spec, s, got.Events), spec)
 	}
 }
 
@@ -162,10 +182,30 @@ var C15 = &sqrun.Check{ID: "C15", QuickBudget: 60, ThoroughBudget: 600,
 				}
 			}
 		})
+		// (3) size family: every line / ID / type length up to maxLen (buffer-size boundaries inside the encoder)
+		maxLen := 300
+		if c.Thorough {
+			maxLen = 1100
+		}
+		k.parallel(maxLen+1, func(n int) {
+			x := strings.Repeat("x", n)
+			for _, sp := range []MsgSpec{
+				{Calls: []Call{{"data", []string{x}}, {"data", []string{"second"}}}},
+				{Calls: []Call{{"comment", []string{x}}, {"data", []string{"second"}}}},
+				{Calls: []Call{{"data", []string{"first", x}}, {"comment", []string{x}}}, ID: "i", HasID: true},
+				{Calls: []Call{{"data", []string{"d"}}}, ID: x, HasID: true, Type: "t", HasType: true},
+				{Calls: []Call{{"data", []string{"d"}}}, ID: "i", HasID: true, Type: x, HasType: true},
+			} {
+				checkRoundTrip(k, sp)
+				if n <= 160 || n%16 < 2 {
+					checkFaults(k, sp)
+				}
+			}
+		})
 		cov := ev.Coverage{"evaluations": k.cases.Load(), "distinct_nontrivial": k.nontriv.Load(), "exhaustive": k.exhaustive(),
-			"payload_strings": len(payloads), "field_strings": nf,
+			"payload_strings": len(payloads), "field_strings": nf, "size_family_max_length": maxLen,
 			"samples": []any{MsgSpec{Calls: []Call{{"data", []string{" a\r"}}}, ID: "", HasID: true}, map[string]any{"message": MsgSpec{ID: "i", HasID: true}, "fault": "Write #2 accepts 1 byte"}},
-			"rule":    fmt.Sprintf("every string of <= %d tokens over %q as data and comment payload, and every combination of ID / type (all %d single-line strings of <= 2 tokens, set or unset, incl. the empty string) x 10 Retry values (incl. negative ones down to the int64 minimum) x 3 chunk shapes: (1) round trip UnmarshalText(MarshalText(m)) compared field by field and by re-encoding; WriteTo/MarshalText/String byte-identical; nothing to write => zero bytes; (2) fault enumeration: for every Write call k of the encoding and every j in [0, len(k-th write)] a writer that accepts j bytes of the k-th write and fails. Non-trivial = messages with at least one field / every fault case.", L, toks, nf)}
+			"rule":    fmt.Sprintf("every string of <= %d tokens over %q as data and comment payload, and every combination of ID / type (all %d single-line strings of <= 2 tokens, set or unset, incl. the empty string) x 10 Retry values (incl. negative ones down to the int64 minimum) x 3 chunk shapes: (1) round trip UnmarshalText(MarshalText(m)) compared field by field and by re-encoding; WriteTo/MarshalText/String byte-identical; nothing to write => zero bytes; (2) fault enumeration: for every Write call k of the encoding and every j in [0, len(k-th write)] a writer that accepts j bytes of the k-th write and fails; (3) size family: data line, comment line, ID and type of every length 0..%d (faults for every length up to 160 and two in sixteen above). Non-trivial = messages with at least one field / every fault case.", L, toks, nf, maxLen)}
 		return &sqrun.Outcome{Level: "fault_enumeration", Coverage: cov, Assumptions: []string{"IDs containing NUL are outside the round-trip clause (the property says so); negative Retry values round-trip to zero (nothing is written for them)"}}
 	},
 }
